@@ -253,12 +253,6 @@ def run(chk):
                 if len(flat) == 1 and isinstance(term, tuple) and term[:2] == ("fn", "atan2") and len(term) == 4:
                     # the alternative formulation atan2(|a x b|, a . b): in [0, pi] iff the first argument cannot be negative
                     from .. import errdom
-                    y, x = term[2], term[3]
-                    signs = {n: "?" for n in ev.leaves(term)}
-                    _b, sy = errdom.err(y, T, signs)
-                    if sy not in ("+", "0"):
-                        chk.violated("R1", sig, "atan2(y, x) with y = %s of unknown sign: the result lies in (-pi, pi], not in [0, pi], and is not symmetric in the arguments" % ev.show(y)[:120], loc)
-                        continue
                     conv = nf.Conv(positive=False)
                     E0 = ev.Evaluator(F)
                     ops = [shapes.to_sympy(conv, F, t, E0.symbolic(t, "p%d" % i))[0] for i, t in enumerate(ptypes)]
@@ -266,7 +260,24 @@ def run(chk):
                     cr = TA.cross(A, B)
                     wy2, wx = TA.dot(cr, cr), TA.dot(A, B)
                     na, nb = sympy.sqrt(TA.dot(A, A)), sympy.sqrt(TA.dot(B, B))
-                    okf = any(nf.equal(conv(y) ** 2, wy2 * k ** 2) and nf.equal(conv(x), wx * k) for k in (1, 1 / (na * nb), 1 / na, 1 / nb))
+                    okf, bad_sign, y, x = True, None, term[2], term[3]
+                    # conditionals inside the arguments (the zero-vector branch of a normalisation, ...) are resolved by case analysis:
+                    # the formula must be the right one in every case
+                    for _asm, tcase in ev.cases(term):
+                        y, x = tcase[2], tcase[3]
+                        signs = {n: "?" for n in ev.leaves(tcase)}
+                        _b, sy = errdom.err(y, T, signs)
+                        if sy not in ("+", "0"):
+                            bad_sign = y
+                            break
+                        if any(c[0] == "cmp" and not tr for c, tr in _asm) and (y in (0, ev.ZERO) or nf.is_zero(conv(y))):
+                            continue        # the degenerate branch (a zero cross product / zero operand): atan2(0, .) is what atan2(|a x b|, a.b) gives there
+                        if not any(nf.equal(conv(y) ** 2, wy2 * k ** 2) and nf.equal(conv(x), wx * k) for k in (1, 1 / (na * nb), 1 / na, 1 / nb)):
+                            okf = False
+                            break
+                    if bad_sign is not None:
+                        chk.violated("R1", sig, "atan2(y, x) with y = %s of unknown sign: the result lies in (-pi, pi], not in [0, pi], and is not symmetric in the arguments" % ev.show(bad_sign)[:120], loc)
+                        continue
                     if okf:
                         chk.holds("R1", sig, "atan2 of a non-negative first argument: value in [0, pi]", loc)
                         chk.holds("R2", sig, "atan2(|a x b|, a . b) up to a common positive factor", loc)
